@@ -497,7 +497,13 @@ where
     #[inline]
     async fn on_heartbeat(&mut self) -> Result<Running, ConnectionInnerError> {
         match &self.connection.local_state() {
-            ConnectionState::Start | ConnectionState::CloseSent => return Ok(Running::Continue),
+            // Nothing may be sent after the close frame, whether it carried an error
+            // (`Discarding`) or not
+            ConnectionState::Start
+            | ConnectionState::CloseSent
+            | ConnectionState::Discarding
+            | ConnectionState::ClosePipe
+            | ConnectionState::OpenClosePipe => return Ok(Running::Continue),
             ConnectionState::End => return Ok(Running::Stop),
             _ => {}
         }
